@@ -187,6 +187,8 @@ H_CONTESTS = ["AA_1", "AA_10", "AA_2", "BB_1", "BB_10", "BB_2"]
 def _client_h_case(case, cov, viol):
     units = E.background(case["seed"], "H", 30, "AABB", partial=6)
     units.append(E.make_probe(case["seed"], 0, "nonrep_partial", "pop0", "H", "10", weights="twoparty"))
+    # a unit the baseline does not know: its district (part of the contest) has to come from its id whatever was requested
+    units.append(E.make_probe(case["seed"], 1, "unexpected", "newcounty", "H", "2", weights="twoparty"))
     lhs = H_CONTESTS if case["calls"] == "all_left" else []
     rhs = H_CONTESTS if case["calls"] == "all_right" else []
 
